@@ -223,6 +223,50 @@ func (w *vworld[T]) finalChecks(final T) {
 	}
 }
 
+// reachProbes counts (once per run) the situations the C13 oracles quantify over, from the recorded stamps only.
+func (w *vworld[T]) reachProbes() {
+	r := newReach(w.s)
+	for i, a := range w.writes {
+		r.hit("write-without-change", a.ret != 0 && a.ord < 0)
+		for _, b := range w.writes[i+1:] {
+			r.hit("writers-overlap", a.task != b.task && stampsOverlap(a.inv, a.ret, b.inv, b.ret))
+		}
+	}
+	for _, sub := range w.subs {
+		// a callback (of any subscription, the reference one included) that started while another writer had already
+		// invoked its write: that writer's callbacks are queued behind this one
+		for _, e := range sub.cbs {
+			for _, b := range w.writes {
+				r.hit("callback-started-while-other-write-in-flight", e.wr != nil && b != e.wr && b.inv < e.enter && e.enter < (&call{b.inv, b.ret}).retOrInf())
+			}
+		}
+		if sub.ref {
+			continue
+		}
+		for _, wr := range w.writes {
+			r.hit("subscribe-overlaps-write", stampsOverlap(sub.subInv, sub.subRet, wr.inv, wr.ret))
+			r.hit("unsubscribe-overlaps-write", sub.unsubInv != 0 && stampsOverlap(sub.unsubInv, sub.unsubRet, wr.inv, wr.ret))
+		}
+		r.hit("subscriber-got-initial-state-only", len(sub.cbs) == 1 && sub.cbs[0].initial)
+		delivered := map[*vwrite[T]]bool{}
+		for _, e := range sub.cbs {
+			if e.initial {
+				continue
+			}
+			delivered[e.wr] = true
+			r.hit("callback-started-after-unsubscribe-invoked", sub.unsubInv != 0 && e.enter > sub.unsubInv)
+		}
+		// a change racing with the subscription call is either delivered as an update or already part of the state the
+		// subscription starts from: the oracles accept both
+		for _, c := range w.changes {
+			if stampsOverlap(sub.subInv, sub.subRet, c.inv, c.ret) {
+				r.hit("change-during-subscribe-delivered-as-update", delivered[c])
+				r.hit("change-during-subscribe-part-of-initial-state", !delivered[c] && (sub.unsubInv == 0 || c.ret < sub.unsubInv))
+			}
+		}
+	}
+}
+
 func (w *vworld[T]) fmtChanges() string {
 	out := ""
 	for _, c := range w.changes {
@@ -334,6 +378,11 @@ func variableBody(s *simrt.Sim) {
 	hx.Stuck(s, "deadlock", left, nil)
 	final := v.Get()
 	s.Logf("final %d", final)
+	w.reachProbes()
+	r := newReach(s)
+	for _, c := range w.changes {
+		r.hit("value-reset-to-zero", c.new == 0)
+	}
 	w.finalChecks(final)
 }
 
@@ -387,6 +436,17 @@ func eventBody(s *simrt.Sim) {
 	hx.Stuck(s, "deadlock", left, nil)
 	final := ev.WasTriggered()
 	s.Logf("final %v", final)
+	w.reachProbes()
+	r := newReach(s)
+	for _, sub := range w.subs {
+		if sub.ref {
+			continue
+		}
+		for _, e := range sub.cbs {
+			r.hit("subscribed-after-trigger", e.initial && e.new)
+			r.hit("ontrigger-handler-ran-inside-subscribe-call", e.initial && sub.kind == "OnTrigger")
+		}
+	}
 	if len(w.changes) > 1 {
 		s.Fail("event", "triggered-more-than-once", "the event changed its value %d times: %s", len(w.changes), w.fmtChanges())
 	}
